@@ -325,6 +325,67 @@ def g7(led, rid, ctx):
               "parse_chunk manipulates the clause buffer directly (%s)" % touched)
 
 
+def _status_blocks(f):
+    out = []
+    for b in f.blocks:
+        if b.get("cleanup"):
+            continue
+        consts = []
+        for s_ in b["stmts"]:
+            if s_["s"] == "assign" and s_["rv"]["r"] == "use" and "const" in s_["rv"]["op"]:
+                consts.append(s_["rv"]["op"]["const"])
+        t = b["term"]
+        if t["t"] == "call":
+            consts += [a["const"] for a in t["args"] if isinstance(a, dict) and "const" in a]
+        for c in consts:
+            txt = c.get("str") or ""
+            if c.get("bytes"):
+                try:
+                    txt = bytes.fromhex(c["bytes"]).decode("latin1")
+                except ValueError:
+                    txt = ""
+            for line in txt.replace("\x00", "\n").split("\n"):
+                line = line.strip()
+                if line.startswith("s ") and line[2:3].isupper():
+                    out.append((b["id"], line))
+    return out
+
+
+def g8(led, rid, ctx):
+    """a status line is printed only as the outcome of the solve (inside an arm of its result), the
+    UNSAT line only after the proof was concluded; the sink hands every hard clause to the solver"""
+    p = ctx.bin
+    f = p.fn("cnf_problem")
+    cfg = f.cfg
+    concl = f.calls_named("conclude_proof_unsat")
+    n = 0
+    for bb, line in _status_blocks(f):
+        n += 1
+        arms_ = [fa.val for fa in guards_of(f, bb) if fa.kind == "variant" and
+                 fa.val in ("Satisfiable", "Unsatisfiable", "Unknown")]
+        led.check(bool(arms_), rid, "status-inside-arm:%s" % line[2:], "%s:%d" % (f.file, f.blocks[bb]["line"]),
+                  "printed in the %s arm" % (arms_[-1] if arms_ else "?"),
+                  "cnf_problem prints `%s` outside the arms of the solve result: the verdict does not come "
+                  "from Solver::satisfy" % line)
+        if line == "s UNSATISFIABLE":
+            led.check(any(cfg.dominates(c.bb, bb) for c in concl), rid, "unsat-line-after-conclusion",
+                      "%s:%d" % (f.file, f.blocks[bb]["line"]), "conclude_proof_unsat dominates the print",
+                      "cnf_problem prints `s UNSATISFIABLE` on a path that has not concluded the proof: the "
+                      "DRAT file does not end in the empty clause")
+    led.floor(rid, "status lines in cnf_problem", n, 3)
+    sink = None
+    for x in p.fns.values():
+        if (x.self_adt or "").endswith("SolverDimacsSink") and x.name == "add_hard_clause":
+            sink = x
+    if sink is None:
+        raise AnchorMissing("SolverDimacsSink::add_hard_clause")
+    adds = sink.calls_named("add_clause")
+    ok = bool(adds) and all(any(sink.cfg.dominates(c.bb, r) for c in adds) for r in sink.cfg.returns)
+    led.check(ok, rid, "add_hard_clause:forwards-on-every-path", sink.span, "solver.add_clause dominates the return",
+              "SolverDimacsSink::add_hard_clause can return without handing the clause to the solver: a clause "
+              "of the formula is dropped and a model that violates it is printed")
+
+
 def run(ctx, led):
     run_rule(led, "G1", "DRAT literal sign TABLE (6 rows) and terminating 0", g1, ctx)
     run_rule(led, "G2", "the sink maps every literal, negates exactly the negative codes, forwards all "
@@ -338,3 +399,9 @@ def run(ctx, led):
              "finish_clause after the sink saw it (WHO-MAY + MUST-PASS)", g6, ctx)
     run_rule(led, "G7", "finish_clause is reached from exactly the two `0` arms; parse_chunk never "
              "touches the clause buffer", g7, ctx)
+    run_rule(led, "G8", "status lines only inside the arms of the solve result, UNSAT only after the proof is concluded; every hard clause reaches the solver", g8, ctx)
+    from . import C10 as _C10
+
+    def _g9(led_, rid_, ctx_):
+        _C10.t_guards(led_, rid_, ctx_, _C10.explore(ctx_.lib))
+    run_rule(led, "G9", "ENTRY-GUARD of add_clause: a clause that follows a root conflict is rejected, not processed (shared with C10-T11)", _g9, ctx)
